@@ -13,3 +13,6 @@ mod analyses;
 mod functions;
 mod globals_section;
 mod optimizations;
+
+#[cfg(feature = "fuellabs_sway_verif")]
+pub(crate) use abstract_instruction_set::AbstractInstructionSet as VerifAbstractInstructionSet;
